@@ -46,12 +46,18 @@ def check_cell(acc, lib, segmap, f, seg, S, r, idset=None):
     acc.n['states'] += 1
     n = segmap[(f, seg)]
     path = rm.path_from(f, n, S, r)
+    if r == 0:
+        acc.n['states'] -= 1 if seg else 0      # five spellings of one cell
     try:
         want = rm.encode(path)
     except OverflowError:
         want = None
     try:
-        idv = ser.serialize(A5Cell(origin=origins[f], segment=seg, S=S, resolution=r))
+        arg = A5Cell(origin=origins[f], segment=seg, S=S, resolution=r)
+        idv = ser.serialize(arg)
+        if (arg['origin'].id, arg['segment'], arg['S'], arg['resolution']) != (f, seg, S, r):
+            acc.violation(f'enc-mutates-arg:r={r}:f={f}:seg={seg}:S={S}', f'serialize modified the cell it was given: now {dict(arg, origin=arg["origin"].id)}', case)
+            return None
     except Exception as e:  # the statement: every cell with r in 0..MAX_RESOLUTION encodes
         msg = str(e)
         acc.violation(f'enc-raises:r={r}:{type(e).__name__}:{msg}' if r == 30 else f'enc-raises:r={r}:f={f}:seg={seg}:S={S}',
@@ -71,6 +77,10 @@ def check_cell(acc, lib, segmap, f, seg, S, r, idset=None):
     # decode side
     try:
         gr = ser.get_resolution(idv)
+        first = ser.deserialize(idv)
+        # a caller may edit the decoded cell; decoding the same id again must not be affected
+        first['segment'] = (first['segment'] + 1) % 5
+        first['S'] = first['S'] + 1
         cell = ser.deserialize(idv)
         back = ser.serialize(cell)
     except Exception as e:
@@ -116,7 +126,9 @@ def work_exhaustive(task):
     ids = set()
     cnt = 0
     if r == 0:
-        check_cell(acc, lib, segmap, f, 0, 0, 0, ids)
+        # the segment of a resolution-0 cell carries no information, but callers (lonlat_to_cell itself) pass any of 0..4
+        for seg in range(5):
+            check_cell(acc, lib, segmap, f, seg, 0, 0, ids)
         cnt = 1
     else:
         for seg in range(5):
